@@ -60,6 +60,12 @@ ASSUMPTIONS = [
     'return a fresh empty inventory - the generator records from a live instance of each class that dtype is '
     'beancount.core.inventory.Inventory and that calling it gives a new empty one (agginv_dtypes, checked in '
     'C12_source_sum_classes); how execute_select drives the protocol per group (run_group) is C02\'s tie (Proofs/SrcAgg.v)',
+    'first / last over Inventory / Position / Amount (bld-inv2; C12_source_first_last_*, Model/FirstLast.v, Proofs/SrcAggFirstLast.v): '
+    'Gen/SrcAggInv.v also carries every overload the live registry has under first / last (one each, for types.Any), what the live '
+    'types.function_lookup returns for an operand of every datatype of the registry, and the translated First / Last methods; the tie is '
+    'over stores whose slots hold encoded inventories / positions / amounts (enc_operand), the operand an opaque PURE callable; the value '
+    'is stored as returned (no copy: aliasing of the stored inventory with the row object is invisible to value semantics and is what '
+    'the input-mutated correspondence streams look for)',
     'tie by translation, only / empty / filter_currency over inventories (C12_source_only_inventory, _empty_inventory, '
     '_filter_currency_inventory; the envlx_ terms of Gen/SrcEnvLedger.v): Inventory.get_currency_units, is_empty and '
     'Inventory(iterable of positions) are the primitives of Model/PrimsInvFuncs.v (= the model functions Model/Inventory.v '
